@@ -16,8 +16,9 @@ Theorem C20_statement : forall i o, spec_okb i o = true -> Spec i o.
 Proof. exact spec_okb_sound. Qed.
 Print Assumptions C20_statement.
 
-(* the correspondence compares observations exactly (alpha forgets only the two whole-test event lists
-   of the SynchronousDeferredRunTest cases, keeping whether they are equal) *)
+(* the correspondence compares observations exactly up to alpha, which forgets the two whole-test event lists
+   of the SynchronousDeferredRunTest cases (keeping whether they are equal) and what a history shows after
+   its first extract_result (Corr.C20.cut: the statement does not say what extract_result leaves behind) *)
 Theorem C20_obs_eqb : forall a b, obs_eqb a b = true <-> alpha a = alpha b.
 Proof. exact obs_eqb_spec. Qed.
 Print Assumptions C20_obs_eqb.
@@ -127,6 +128,26 @@ Example C20_example_notfired :
   /\ sync_run_user (StDeferred (ready (RErr impossible_tok))) = UCaught impossible_tok
   /\ sync_run_user (StDeferred new_deferred) = URaised XNotFired
   /\ spec_okb (ISync 1 (inr notfired_tok)) (model (ISync 1 (inr notfired_tok))) = true.
+Proof. vm_compute. repeat split. Qed.
+
+(* the class of the failure plays no role (all clauses above quantify over every class token): a failure
+   that is a KeyboardInterrupt / SystemExit / GeneratorExit / other non-Exception BaseException is classified,
+   consumed and marked handled by succeeded()/failed() like any other, also when a callback raised it or it
+   came through a chained Deferred; the runner reports it as caught, like RunTest._run_user *)
+Example C20_example_baseexception :
+  let d := ready (RErr kbint_tok) in
+  verdict (MFailed (IIs kbint_tok)) d [] = true /\ verdict (MSucceeded IAlways) d [] = false
+  /\ handled (after_match (MSucceeded IAlways) d []) = true
+  /\ state_of (after_match (MFailed INever) (ready (RErr sysexit_tok)) []) = SVal 0
+  /\ unhandled (after_match MNoResult (ready (RErr genexit_tok)) []) = true
+  /\ sync_run_user (StRaise dbase_tok) = UCaught dbase_tok
+  /\ sync_run_user (StDeferred (ready (RErr sysexit_tok))) = UCaught sysexit_tok
+  /\ (match model (IHist [OAdd (CRaise kbint_tok) CPass; OAdd CWait CWait; OFire 3; OResume (RErr genexit_tok);
+                          OMatch (MFailed (IIs genexit_tok))]) with
+      | OHist h => h_unhandled h = false /\ final_state (h_ops h) = SVal 0
+                   /\ map p_out (h_ops h) = [OutDone; OutDone; OutDone; OutDone; OutMatch true]
+      | _ => False
+      end).
 Proof. vm_compute. repeat split. Qed.
 
 (* non-vacuity: callbacks before, a match on the unfired Deferred, a chained Deferred, a failure inspected
